@@ -2,11 +2,11 @@
 spec: AntiAmp.tla; MC_AntiAmp (atomic-operation interleavings of receive path x validation path x burst task),
 Gen_AntiAmp (all public call sequences), Trace_AntiAmp (TraceNext: calls on the real AntiAmplifier/ArcSendWaker/Constraints;
 PathTraceNext: per-path byte events of a full-stack run)."""
-import json, os, re, time
+import json, os, random, re, time
 import vlib
-from checks import common
+from checks import common, sim
 
-BINS = ["vh-antiamp"]
+BINS = ["vh-antiamp", "vh-sim"]
 PID, COMP = "C15", "AntiAmp"
 
 # the budget discipline the property asks for / the three named deviations of the code
@@ -60,21 +60,100 @@ def expect_counterexample(rep, name, consts, invariant):
 
 def sig(pid, comp, rej):
     s, what = common.signature(pid, comp, rej)
+    if s.endswith("/no"):      # "no spec step matches this event"
+        s = s[:-3] + "/NotAStep"
     return s, what
 
 
-def validate_path_trace(rep, tracefile, part="sim/paths"):
-    """Entry point for the full-stack simulation (binding (b)): tracefile holds, per path and run, a `reset` event followed by
+def path_scenario(seed, max_segments, faults, **kw):
+    sc = {"seed": seed, "bounded": False, "bi": 1, "uni": 0, "size": 3000, "chunk": 1000, "faults": faults, "qlog": "none",
+          "deadline_ms": 12000, "lat_ms": 5, "max_segments": max_segments, "sparams": {"idle_ms": 4000}, "cparams": {"idle_ms": 4000}}
+    sc.update(kw)
+    return sc
+
+
+def path_scenarios(quick):
+    """handshakes in which the server's path stays unvalidated for a while: the client's datagrams stop arriving after the first
+    k (one-way blackhole), the server's first flight is lost, or everything is lossy; 1 / 4 / 64 segments per sendmmsg."""
+    out = []
+    n = 0
+    for ms in (1, 4, 64):
+        for k in ((1, 2) if quick else (1, 2, 3, 4)):
+            n += 1
+            out.append(path_scenario(vlib.seed() * 1000 + n, ms, {"blackhole": {"c2s": k}}))
+    for ms, drops in ((4, ["0", "1"]), (1, ["1"])) if quick else ((4, ["0", "1"]), (1, ["1"]), (64, ["0", "1", "2"]), (4, ["0"])):
+        n += 1
+        out.append(path_scenario(vlib.seed() * 1000 + n, ms, {"s2c": {i: "drop" for i in drops}}))
+    n += 1
+    out.append(path_scenario(vlib.seed() * 1000 + n, 4, {}))
+    if not quick:
+        rnd = random.Random(vlib.seed())
+        for i in range(150):
+            f = {"drop": rnd.choice([10, 25, 40]), "dup": rnd.choice([0, 5]), "delay": rnd.choice([0, 10]), "until_ms": rnd.choice([300, 2000])}
+            if rnd.random() < 0.4:
+                f["blackhole"] = {"c2s": rnd.choice([1, 2, 3, 5])}
+            out.append(path_scenario(vlib.seed() * 1000 + 100 + i, rnd.choice([1, 4, 64]), f, size=rnd.choice([0, 3000, 20000]),
+                                     lat_ms=rnd.choice([1, 5, 30])))
+    return out
+
+
+def path_events(simtrace, out):
+    """Project a vh-sim trace onto the byte stream of the SERVER's path (the client's own path is granted at creation):
+    rcvd = a client datagram is delivered to the server's socket (all payload bytes count, RFC 9000 8.1);
+    sent = the server hands a datagram to the IO sender (whatever the network does with it afterwards);
+    grant = the earliest moment the server can have validated the address: the delivery of the first client datagram that
+            carries a Handshake packet (the scenarios use neither tokens nor Retry).  Later events of the run are not judged."""
+    J = lambda d: json.dumps(d, separators=(",", ":"))
+    n = 0
+    with open(simtrace) as f, open(out, "w") as o:
+        hs = set()
+        granted = False
+        for line in f:
+            e = json.loads(line)
+            k = e.get("ev")
+            if k == "reset":
+                hs, granted = set(), False
+                o.write(J({"ev": "reset", "sc": e.get("sc")}) + "\n")
+                n += 1
+            elif k == "dgram" and e["dir"] == "c2s":
+                if any(p.get("ty") == "handshake" for p in e.get("pkts", [])):
+                    hs.add(e["i"])
+            elif k == "dlv" and e["dir"] == "c2s":
+                o.write(J({"ev": "rcvd", "n": e["len"], "t": e["t"], "i": e["i"]}) + "\n")
+                if e["i"] in hs and not granted:
+                    granted = True
+                    o.write(J({"ev": "grant", "t": e["t"]}) + "\n")
+            elif k == "dgram" and e["dir"] == "s2c":
+                o.write(J({"ev": "sent", "n": e["len"], "t": e["t"], "i": e["i"],
+                                    "pkts": [[p.get("ty"), p.get("len")] for p in e.get("pkts", [])]}) + "\n")
+            elif k == "panic":
+                o.write(J({"ev": "panic", "op": ["sim"], "msg": e.get("msg", "")}) + "\n")
+    return n
+
+
+def path_hit(line):
+    return '"ev":"sent"' in line
+
+
+def validate_path_trace(rep, tracefile, part="paths/sim"):
+    """binding (b): tracefile holds, per run, a `reset` event followed by the server path's
     {"ev":"rcvd","n":..} / {"ev":"sent","n":..} / {"ev":"grant"} / {"ev":"abort"} in the order the network saw them."""
-    return common.validate(rep, PID, "Path", "Trace_AntiAmp", PATH_CFG, tracefile, part,
-                           lambda line: '"ev":"sent"' in line, constants=TRACE_CONSTS)
+    return common.validate(rep, PID, "Path", "Trace_AntiAmp", PATH_CFG, tracefile, part, path_hit, constants=TRACE_CONSTS)
+
+
+def run_paths(rep, quick, name="paths"):
+    wd = vlib.workdir(PID)
+    simtrace, _ = sim.run_sim(PID, name, path_scenarios(quick))
+    ptrace = os.path.join(wd, "%s_events.ndjson" % name)
+    path_events(simtrace, ptrace)
+    return validate_path_trace(rep, ptrace, "paths/sim")
 
 
 def run(tier, rep):
     quick = tier == "quick"
     # 1. the design: every interleaving of the atomic operations; the discipline satisfies the property
     if quick:
-        models = [("discipline", {}), ("discipline/zero-size", {"RcvSizes": "{0, 1}", "MaxRcvdBytes": 1, "MaxBursts": 1})]
+        models = [("discipline", {})]
     else:
         models = [("discipline", {"RcvSizes": "{0, 1, 2}", "MaxRcvdBytes": 3})]
     for name, over in models:
@@ -90,12 +169,12 @@ def run(tier, rep):
         flags["WrapOnOverdraft"] = "TRUE"
         expect_counterexample(rep, name, mc_consts(flags, MaxBursts=1), "Amp3x")
     # 2. + 3. spec -> real AntiAmplifier -> spec
-    parts = [("d5", {"RcvSizes": "{0, 1, 400, 1200}", "Depth": 5, "After": 2})]
+    full = "{0, 1, 400, 1200}"
     if quick:
-        parts.append(("d6", {"RcvSizes": "{1, 1200}", "Depth": 6, "After": 1}))
+        parts = [("d4", {"RcvSizes": full, "Depth": 4, "After": 2}), ("d5", {"RcvSizes": "{1, 1200}", "Depth": 5, "After": 1})]
     else:
-        parts.append(("d6", {"RcvSizes": "{0, 1, 400, 1200}", "Depth": 6, "After": 2}))
-        parts.append(("d7", {"RcvSizes": "{1, 1200}", "Depth": 7, "After": 1}))
+        parts = [("d5", {"RcvSizes": full, "Depth": 5, "After": 2}), ("d6", {"RcvSizes": full, "Depth": 6, "After": 2}),
+                 ("d7", {"RcvSizes": "{1, 1200}", "Depth": 7, "After": 1})]
     wd = vlib.workdir(PID)
     for part, c in parts:
         consts = dict(TRACE_CONSTS, SegCases="<- GenSegCases", **c)
@@ -105,22 +184,25 @@ def run(tier, rep):
         rep.add_mc("Gen_AntiAmp/" + part, g)
         vlib.vhx("vh-antiamp", ["replay", beh, trace])
         common.validate(rep, PID, COMP, "Trace_AntiAmp", TR_CFG, trace, "calls/" + part, is_hit, sig, constants=TRACE_CONSTS)
-    # optional: per-path byte streams recorded by the full-stack simulation, if it left any for us
-    ptrace = os.path.join(vlib.WORK, "sim", "c15_paths.ndjson")
-    if os.path.exists(ptrace) and os.path.getsize(ptrace) > 0:
-        validate_path_trace(rep, ptrace)
+    # 4. the real Burst::burst / load_spaces / Path::send_packets loop: per-path byte streams of full-stack runs
+    run_paths(rep, quick)
     rep.cov["rule"] = ("(1) TLC explores every interleaving of the individual atomic operations of on_rcvd / balance / on_sent / grant / abort / "
                        "SendWaker critical sections for one receive task, one validation task and the burst task (multi-segment bursts under "
                        "Constraints, Initial padding, debit after the burst) and checks sent <= 3*rcvd while NORMAL, no wrap, no lost resume, dead is final; "
                        "(2) every sequence of public calls to the stated depth (on_rcvd 0/1/400/1200, balance, on_sent below/at/above the balance read, "
                        "grant, abort, wait_for(CREDIT) polls with a counting waker, datagram assemblies under the real Constraints) is executed on the real "
-                       "AntiAmplifier and every step validated by TLC (result, counter, state, required wake-ups). "
-                       "distinct_nontrivial = distinct runs with at least one on_sent or one wake-up of a parked sender.")
+                       "AntiAmplifier and every step validated by TLC (result, counter, state, required wake-ups); "
+                       "(3) full-stack runs (real client + server over the in-memory network, 1/4/64 segments per send) in which the server's path stays "
+                       "unvalidated (client datagrams black-holed after the first k, server flight lost, lossy links): the server path's byte stream as the "
+                       "network saw it is validated by TLC against sent <= 3*rcvd until the earliest possible validation. "
+                       "distinct_nontrivial = distinct call runs with at least one on_sent or one wake-up of a parked sender + distinct path runs in which the server sent.")
     rep.cov["exhaustive"] = True
     rep.assumptions += ["one burst task per path (balance/on_sent are called by one task at a time, as aa.rs requires)",
                         "packet sizes and counts stay below 2^31 (TLC integers); the counter is observed as a signed 64-bit value",
-                        "the real Burst::load_spaces / Path::send_packets loop is bound only through the full-stack simulation's per-path byte "
-                        "streams (PathTraceNext); at component level the burst loop exists in the model only"]
+                        "the real Burst::load_spaces / Path::send_packets loop is bound through the full-stack simulation's per-path byte "
+                        "streams (PathTraceNext); at component level the burst loop exists in the model only",
+                        "full-stack scenarios use neither address-validation tokens nor Retry, so the server cannot validate the client's address "
+                        "before a datagram carrying a Handshake packet has been delivered to it"]
 
 
 def to_ops(trace):
@@ -138,15 +220,16 @@ def replay(path):
     v = json.load(open(path))
     if v["payload"].get("component") == "Path":
         wd = vlib.workdir(PID)
-        trace = os.path.join(wd, "replay_path.ndjson")
-        with open(trace, "w") as f:
-            for e in v["payload"]["trace"]:
-                f.write(json.dumps(e) + "\n")
-        r = vlib.validate_traces(PID, "Trace_AntiAmp", PATH_CFG, trace, nchunks=1, constants=TRACE_CONSTS)
+        sc = v["payload"]["trace"][0].get("sc")
+        simtrace, _ = sim.run_sim(PID, "replay", [sc])
+        ptrace = os.path.join(wd, "replay_events.ndjson")
+        path_events(simtrace, ptrace)
+        r = vlib.validate_traces(PID, "Trace_AntiAmp", PATH_CFG, ptrace, nchunks=1, constants=TRACE_CONSTS)
         if r["rejected"]:
-            print("  recorded path byte stream still violates:", *common.signature(PID, "Path", r["rejected"][0]))
+            print("  reproduced:", *common.signature(PID, "Path", r["rejected"][0]))
             print("VIOLATION property=%s replay=%s" % (PID, path))
             return 1
+        print("not reproduced on the current tree")
         return 0
     wd = vlib.workdir(PID)
     ops = to_ops(v["payload"]["trace"])
